@@ -42,6 +42,25 @@ CLAIMS = {
         "callers of eval_block) lift the per-assignment contract to the whole history.",
    note="Trusted: pyvc encoding, z3; assumption A-C02 (no nested re-assignment of the same output during delivery); tuples contain "
         "event objects; iterator arguments (deprecated) excluded. Open known finding: InitAsync.init_regular drops on_output events."),
+ 'C03': dict(
+   text="FSM._ctx_event (the long sequential function: table lookup, conditions, re-entrant request, exit/entry actions, chained "
+        "hops in a for-else loop with an invariant, timer start, output update), _run_cb, _send_events, _event, _check_state, "
+        "calc_output and init_from_value are executed from the real AST.  The result, the next state and what is left unchanged on "
+        "rejection are postconditions written from the statement (specific rule beats any-state rule, None/missing rejects, Goto "
+        "bypasses the table, all conditions must be true and are consulted only for table events of an initialised FSM); the action "
+        "order is an order automaton checked at every traced call (exit, on_exit, stop timer, entry [exit of intermediate], timer, "
+        "calc_output, set_output, on_enter), and every cond/enter/exit must see, through fsm_event_data, the data of the event that "
+        "caused it (this found the chained-transition defect, fixed in /repo).  Control tables of the library FSMs are reflected.",
+   note="Trusted: pyvc encoding, z3; callbacks are user code behind an interface contract; set_output/Event.send contracts; "
+        "well-formed tables as precondition (FSM._build_tables/__init__ keyword parsing not under contract for arbitrary definitions)."),
+ 'C04': dict(
+   text="FSM._start_timer/_set_timer/_stop_timer/stop and the timer part of _ctx_event are executed from the real AST with a "
+        "quantifier-free timer invariant (ghost: number of live handles of the FSM = 1 iff _active_timer is live, else 0): effective "
+        "duration = event item, else instance/class value; none is an error; INF never; <= 0 delivers at once without a handle; "
+        "otherwise exactly one handle due at now+d calling event(timed_event); leaving/re-entering/stop cancels it, so at most one "
+        "timer is pending and nothing is pending after stop(); Timer.cond_start/cond_stop/calc_output against their truth tables.",
+   note="Trusted: asyncio call_later/TimerHandle contract (runs once, not before when, never after cancel): 'on time' and 'exactly "
+        "once' are this contract plus the invariant; float durations as reals, +inf encoded as 10^300; A-C08."),
  'C09': dict(
    text="Circuit.abort, SBlock.event (error classification), AddonAsync._task_monitor, ControlBlock._event_shutdown/_event_abort and "
         "Circuit.is_ready are executed from the real AST: abort keeps the first error and cancels the task only then; event() aborts "
